@@ -158,6 +158,7 @@ def run_case(case):
         sim.heartbeat = hb
     has_var = [False]
     collision_on = [False]
+    overflow = [False]
     if var_from_start and sim.N >= 2:
         # variational particles (and their configuration) are already part of the FIRST snapshot, against which every later delta is encoded
         v0 = sim.add_variation()
@@ -168,6 +169,10 @@ def run_case(case):
     def harvest(kind):
         nonlocal logpos
         new, logpos = read_shim_log(log, logpos)
+        if os.path.exists(log) and os.path.getsize(log) > (700 << 20):
+            # a runaway history (tens of thousands of automatic snapshots): the shim's log of FULL live states approaches the workers' 1 GiB
+            # file-size limit, beyond which its writes fail silently (CPython ignores SIGXFSZ) - the expected list would come up short
+            overflow[0] = True
         for b in new:
             expected.append(dict(canon=rt.sabin(b), kind=kind))
             counters['snapshots_auto' if kind == 'auto' else 'snapshots_manual'] += 1
@@ -185,6 +190,9 @@ def run_case(case):
 
     def readback(final):
         """compare archive with expected list. returns False to stop"""
+        if overflow[0]:
+            counters['histories_not_judged_shim_log_near_file_size_limit'] = 1
+            return False
         counters['readbacks'] += 1
         with open(fn, 'rb') as f:
             raw = f.read()
